@@ -1,9 +1,118 @@
 (* C10  Literal and constant values match the compiler on each platform.
    Statements only; every proof is `exact <lemma>`. *)
-From CV Require Import Base.Bytes Lit.Defs Lit.Spec Lit.Platform Lit.Gen_Platforms Lit.PlatformProofs.
+From CV Require Import Base.Bytes Lit.Defs Lit.Spec Lit.Platform Lit.Gen_Platforms Lit.PlatformProofs
+  Lit.Proofs Lit.IntTheorems Lit.CharTheorems.
 Local Open Scope N_scope.
 
-(* every entry of the table regenerated from Platform::set and platforms/*.xml is well-formed *)
+(* SPEC-EQ: every integer literal of the grammar (any base, any suffix, any number of digits) whose
+   value sum d_i*b^i is below 2^64 is converted to exactly that value: toBigUNumber returns it,
+   toBigNumber returns its two's-complement reading *)
+Theorem C10_to_bignumber_value s b v : c_int_literal s b v -> v < TWO64 ->
+  to_bignumber s = RVal (wrap64s v) /\ to_bigunumber s = RVal (Z.of_N v).
+Proof. exact (to_bignumber_value s b v). Qed.
+Print Assumptions C10_to_bignumber_value.
+
+(* ... and below 2^63 the signed result is the value itself *)
+Theorem C10_wrap64s_small v : v < 9223372036854775808 -> wrap64s v = Z.of_N v.
+Proof. exact (wrap64s_small v). Qed.
+Print Assumptions C10_wrap64s_small.
+
+(* a decimal, octal or hexadecimal literal that needs more than 64 bits is rejected (InternalError
+   out_of_range), never given a wrong value *)
+Theorem C10_to_bignumber_rejects s b v : c_int_literal s b v -> TWO64 <= v -> b <> B2 ->
+  to_bignumber s = RErr 1 /\ to_bigunumber s = RErr 1.
+Proof. exact (to_bignumber_rejects s b v). Qed.
+Print Assumptions C10_to_bignumber_rejects.
+
+(* the binary branch never rejects: it keeps the low 64 bits (for v < 2^64 this is the value) *)
+Theorem C10_to_bignumber_binary_wraps s v : c_int_literal s B2 v ->
+  to_bignumber s = RVal (wrap64s v) /\ to_bigunumber s = RVal (Z.of_N (v mod TWO64)).
+Proof. exact (to_bignumber_binary_wraps s v). Qed.
+Print Assumptions C10_to_bignumber_binary_wraps.
+
+(* the classifiers on the grammar: isInt holds, isFloat and isCharLiteral do not, isIntHex/isBin
+   hold exactly for their base, isOct only for base 8, the conversion branch is the one of the
+   base (a lone "0" with a suffix goes through the decimal branch, its value is 0 either way) *)
+Theorem C10_classifiers_partition s b v : c_int_literal s b v ->
+  is_int s = true /\ is_float s = false /\ is_char_literal s = false /\
+  is_int_hex s = (match b with B16 => true | _ => false end) /\
+  is_bin s = (match b with B2 => true | _ => false end) /\
+  (is_oct s = true -> b = B8) /\
+  branch_of s = (match b with
+                 | B16 => BrHex | B2 => BrBin | B10 => BrDec
+                 | B8 => if is_oct s then BrOct else BrDec
+                 end) /\
+  (b = B8 -> is_oct s = false -> v = 0).
+Proof. exact (classify_literal s b v). Qed.
+Print Assumptions C10_classifiers_partition.
+
+(* narrow character literals made of source characters and simple escapes, any number of them:
+   one character -> its value as (signed) char; several -> packed base 256 into an int *)
+Theorem C10_char_literal_value body vs : c_chars body vs -> vs <> [] ->
+  char_literal_to_ll (39 :: body ++ [39]) = Some (narrow_char_value vs).
+Proof. exact (narrow_char_literal body vs). Qed.
+Print Assumptions C10_char_literal_value.
+
+(* u8'x' u'x' U'x' L'x' for an ASCII character or simple escape: the character's value *)
+Theorem C10_prefixed_char_literal_value pre sp v : c_char sp v -> v < 128 ->
+  pre = [117; 56] \/ pre = [117] \/ pre = [85] \/ pre = [76] ->
+  char_literal_to_ll (pre ++ 39 :: sp ++ [39]) = Some (Z.of_N v).
+Proof. exact (prefixed_char_literal pre sp v). Qed.
+Print Assumptions C10_prefixed_char_literal_value.
+
+(* every entry of the table regenerated from Platform::set and platforms/*.xml is well-formed
+   (finite statement: the table is rewritten from the source on every run) *)
 Theorem C10_platform_table_sane : forallb platform_sane Gen_platforms = true.
 Proof. exact gen_platforms_sane. Qed.
 Print Assumptions C10_platform_table_sane.
+
+(* what well-formedness gives for any platform record: the integer widths are ordered, int has
+   at least 16 bits, long at least 32, nothing exceeds the 64-bit value domain; sizeof >= 1 *)
+Theorem C10_sane_platform_widths p : platform_sane p = true ->
+  16 <= short_bit p /\ short_bit p <= int_bit p /\ int_bit p <= long_bit p /\
+  long_bit p <= longlong_bit p /\ longlong_bit p <= 64 /\ 32 <= long_bit p.
+Proof. exact (sane_bits p). Qed.
+Print Assumptions C10_sane_platform_widths.
+
+Theorem C10_sizeof_positive p t : platform_sane p = true -> 1 <= sizeof_type p t.
+Proof. exact (sizeof_positive p t). Qed.
+Print Assumptions C10_sizeof_positive.
+
+(* ---- non-vacuity: the premises are inhabited and the model answers on concrete literals *)
+Example C10_ex_hex : c_int_literal [48;120;49;70;117] B16 31.      (* "0x1Fu" *)
+Proof.
+  apply (Lit_hex 120 49 1 [70] [15] [117]); [left; reflexivity | apply (DC_dec 16 1); lia | | apply S_u; constructor].
+  apply (DS_cons 16 70 15); [apply (DC_upper 16 15); lia | constructor].
+Qed.
+Example C10_ex_hex_value : to_bignumber [48;120;49;70;117] = RVal 31%Z.
+Proof. vm_compute. reflexivity. Qed.
+Example C10_ex_dec_big : to_bignumber [49;56;52;52;54;55;52;52;48;55;51;55;48;57;53;53;49;54;49;53] = RVal (-1)%Z. (* 2^64-1 *)
+Proof. vm_compute. reflexivity. Qed.
+Example C10_ex_dec_reject : to_bignumber [49;56;52;52;54;55;52;52;48;55;51;55;48;57;53;53;49;54;49;54] = RErr 1. (* 2^64 *)
+Proof. vm_compute. reflexivity. Qed.
+Example C10_ex_oct : c_int_literal [48;55;55;76] B8 63.             (* "077L" *)
+Proof.
+  apply (Lit_oct [55;55] [7;7] [76]); [| apply S_l; constructor].
+  apply (DS_cons 8 55 7); [apply (DC_dec 8 7); lia|]. apply (DS_cons 8 55 7); [apply (DC_dec 8 7); lia | constructor].
+Qed.
+Example C10_ex_bin : c_int_literal [48;98;49;48] B2 2.              (* "0b10" *)
+Proof.
+  apply (Lit_bin 98 49 1 [48] [0] []); [left; reflexivity | apply (DC_dec 2 1); lia | | constructor].
+  apply (DS_cons 2 48 0); [apply (DC_dec 2 0); lia | constructor].
+Qed.
+Example C10_ex_dec : c_int_literal [52;50;117;108;108] B10 42.      (* "42ull" *)
+Proof.
+  apply (Lit_dec 52 4 [50] [2] [117;108;108]); [apply (DC_dec 10 4); lia | lia | | apply (S_ul [117] [108;108]); constructor].
+  apply (DS_cons 10 50 2); [apply (DC_dec 10 2); lia | constructor].
+Qed.
+Example C10_ex_chars : c_chars [97;92;110] [97;10].                  (* a\n *)
+Proof.
+  apply (CCs_cons [97] 97 [92;110] [10]); [constructor; lia|].
+  apply (CCs_cons [92;110] 10 [] []); [constructor; constructor | constructor].
+Qed.
+Example C10_ex_char_value : char_literal_to_ll [39;97;92;110;39] = Some 24842%Z.   (* 'a\n' = 0x610a *)
+Proof. vm_compute. reflexivity. Qed.
+Example C10_ex_char_ff : char_literal_to_ll [39;92;120;102;102;39] = Some (-1)%Z.  (* '\xff' *)
+Proof. vm_compute. reflexivity. Qed.
+Example C10_ex_platform : exists p, In p Gen_platforms /\ platform_sane p = true.
+Proof. exists plat_unix64. split; [vm_compute; tauto | vm_compute; reflexivity]. Qed.
